@@ -34,3 +34,11 @@ pub(crate) fn map_toggle_str<'a>(enabled: bool) -> &'a str {
         false => "disabled",
     }
 }
+
+/// Verification hooks (feature `verif_hooks`, off by default): re-exports of crate-private items
+/// that the external verification harness needs to call directly.
+#[cfg(feature = "verif_hooks")]
+pub mod verif {
+    pub use crate::command::ServerCommand;
+    pub use crate::compat::index_rebuilding::index_rebuilder::IndexRebuilder;
+}
